@@ -88,6 +88,8 @@ def graph_case(draw, tier):
                                               "tail": st.integers(0, 99)})))
     c = {"edges": [[labels[b], labels[a]] if f else [labels[a], labels[b]] for (a, b), f in zip(order, flip)],
          "m0": m0, "rng": r}
+    if draw(st.integers(0, 3)) == 3:
+        c["bulk"] = draw(st.sampled_from([1, 2, 3, 5]))
     if draw(st.integers(0, 2)) == 2:
         c["prelude"] = [[draw(st.sampled_from(["lmc", "cover"])), draw(st.integers(2, 7))]
                         for _ in range(draw(st.integers(1, 2)))]
@@ -112,6 +114,12 @@ def enumerated(tier, seed):
             if m0 > n + 1:
                 continue
             out.append({"edges": [list(e) for e in G.edges()], "m0": m0, "rng": {"mode": "enum", "seed": seed}})
+    # K8 cut into 7-cliques next to the 16-cell K_{2,2,2,2} (sixteen 4-cliques, every edge shared): candidates of
+    # different order with the same exact score, m0 = 7; and the same with m0 = 4..6
+    k8 = [list(p) for p in combinations(range(8), 2)]
+    cell = [[8 + a, 8 + b] for a, b in combinations(range(8), 2) if (a ^ b) != 1]
+    for m0 in (7, 6, 5, 4):
+        out.append({"edges": k8 + cell, "m0": m0, "rng": {"mode": "enum", "seed": seed}})
     # two K_n glued along one edge, kept whole (m0 = n): the shared edge gives each clique the score 1/C(n,2)
     for n in ([5, 8, 13, 23] if tier == "quick" else [5, 8, 13, 23, 34, 59]):
         a = list(range(n))
@@ -121,11 +129,18 @@ def enumerated(tier, seed):
     return out
 
 
-def run_once(edges, m0, prelude=()):
+def run_once(edges, m0, prelude=(), bulk=0):
     from gcmpy import EECC
     net = EECC()
-    for a, b in edges:
-        net.add_edge((a, b))
+    if bulk:
+        # the whole list in one add_edges_from call, some edges listed a second time in the other orientation (the same
+        # simple graph)
+        lst = [(a, b) for a, b in edges]
+        lst += [(b, a) for i, (a, b) in enumerate(edges) if i % bulk == 0]
+        net.add_edges_from(lst)
+    else:
+        for a, b in edges:
+            net.add_edge((a, b))
     # earlier use of the same object under another bound: list the limited cliques, or compute a whole cover
     # (which empties the working graph) and add the edges again
     for op, a in prelude:
@@ -189,7 +204,7 @@ def check(case):
         holder = {}
 
         def outcome():
-            net, cover = call("get_EECC", run_once, edges, m0, case.get("prelude") or ())
+            net, cover = call("get_EECC", run_once, edges, m0, case.get("prelude") or (), case.get("bulk", 0))
             holder["maxc"] = validate(edges, m0, net, cover)
             return tuple(sorted(tuple(sorted(c)) for c in cover))
         try:
@@ -201,7 +216,7 @@ def check(case):
             for s in range(20):
                 with rng.scripted(ints=[], tail_seed=r["seed"] * 100 + s, budget=budget):
                     try:
-                        net, cover = call("get_EECC", run_once, edges, m0, case.get("prelude") or ())
+                        net, cover = call("get_EECC", run_once, edges, m0, case.get("prelude") or (), case.get("bulk", 0))
                     except rng.Budget:
                         raise Violation("non-termination", f"more than {budget} tie-break draws for {nE} edges")
                 holder["maxc"] = validate(edges, m0, net, cover)
@@ -212,7 +227,7 @@ def check(case):
                else rng.scripted(ints=r["ints"], tail_seed=r.get("tail", 0), budget=budget))
         with ctx:
             try:
-                net, cover = call("get_EECC", run_once, edges, m0, case.get("prelude") or ())
+                net, cover = call("get_EECC", run_once, edges, m0, case.get("prelude") or (), case.get("bulk", 0))
             except rng.Budget:
                 raise Violation("non-termination", f"more than {budget} tie-break draws for {nE} edges")
         maxc = validate(edges, m0, net, cover)
